@@ -944,6 +944,10 @@ func genCase(t *rapid.T) groupCase {
 			if f.Kind == "early" && rd.End != "fn-return" {
 				f.Ms = rapid.IntRange(1, 100).Draw(t, "earlyMs")
 			}
+			if f.Kind == "linger" && rapid.IntRange(0, 4).Draw(t, "longLinger") == 0 {
+				// a function that takes longer to wind down than the group's RebalanceTimeout (300 ms): the hand-over still waits
+				f.Ms = rapid.IntRange(350, 650).Draw(t, "longLingerMs")
+			}
 			f.LateStart = rapid.IntRange(0, 9).Draw(t, "late") == 0
 			rd.Fns = append(rd.Fns, f)
 		}
